@@ -160,6 +160,8 @@ func c20Replay(i int, raw json.RawMessage) Result {
 				if len(bin) > 7 {
 					bin = bin[:len(bin)-7]
 				}
+			case "text_pad":
+				// applied to the text below
 			case "add_unknown":
 				bin = c20Add(bin, "unknown = 1")
 			case "add_gen":
@@ -185,6 +187,17 @@ func c20Replay(i int, raw json.RawMessage) Result {
 			}
 		}
 		token = base64.RawURLEncoding.EncodeToString(bin)
+		for _, k := range r.Altered {
+			if k == "text_pad" {
+				// the text an issued token would have in the padded alphabet ('=' up to a multiple of four; one '='
+				// if it is one already): another string than the one that was issued
+				n := (4 - len(token)%4) % 4
+				if n == 0 {
+					n = 1
+				}
+				token += strings.Repeat("=", n)
+			}
+		}
 	}
 
 	switch r.Call {
